@@ -26,10 +26,10 @@ MEMBERS = {
 # C01 flavour: everything is a method (what a typed func_adl model looks like), with omitted defaults / keywords
 MEMBERS_METHODS = {
     "Evt": [(".met()", F), (".run()", I), (".jets()", S(JET)), (".jets('b')", S(JET)), (".jets(cut={F})", S(JET)),
-            (".jets('a', {F})", S(JET)), (".nums()", S(I))],
+            (".jets('a', {F})", S(JET)), (".nums()", S(I)), (".scaled()", F), (".scaled({F})", F), (".scaled(off={I})", F)],
     "Jet": [(".pt()", F), (".eta()", F), (".idx()", I), (".ok()", B), (".trks()", S(TRK)), (".trks(minpt={F})", S(TRK)),
             (".scaled()", F), (".scaled({F})", F), (".scaled(off={I})", F), (".scaled({F}, {I})", F), (".scaled(off={I}, f={F})", F)],
-    "Trk": [(".pt()", F), (".n()", I), (".good()", B)],
+    "Trk": [(".pt()", F), (".n()", I), (".good()", B), (".scaled()", F), (".scaled({I})", F), (".scaled(f={F})", F)],
 }
 
 NAME_POOLS = {
@@ -253,6 +253,26 @@ def _wrappers(cx: Ctx, env, ty, depth, inner_fn):
     return inner_fn()
 
 
+def filter_body(cx: Ctx, env, depth):
+    """predicate of a Where: about half of them get deliberate top-level boolean structure (or / and / not / conditional /
+    chained comparison), because filter fusion rewrites exactly that level"""
+    c = cx.int_(0, 11)
+    d = max(depth - 1, 0)
+    if c <= 5:
+        return gen(cx, env, B, depth)
+    a, b = gen(cx, env, B, d), gen(cx, env, B, d)
+    if c <= 7:
+        return f"{a} or {b}"
+    if c == 8:
+        return cx.pick([f"{a} and {b}", f"{a} or {b} or {gen(cx, env, B, d)}", f"{a} and {b} or {gen(cx, env, B, d)}"])
+    if c == 9:
+        return cx.pick([f"not ({a} or {b})", f"not {a}"])
+    if c == 10:
+        return f"{a} if {gen(cx, env, B, d)} else {b}"
+    t = cx.pick([I, F])
+    return f"{_const(cx, t)} {cx.pick(['<', '<='])} {gen(cx, env, t, d)} {cx.pick(['<', '<=', '!='])} {gen(cx, env, t, d)}"
+
+
 def _scalar(cx: Ctx, env, ty, depth):
     def base():
         if depth <= 0:
@@ -287,6 +307,24 @@ def _scalar(cx: Ctx, env, ty, depth):
             return f"Count({s})" if (cx.chance(7) or not cx.cfg.count_fn) else f"len({s})"
         if c == 6:
             return f"(-{gen(cx, env, ty, depth - 1)})"
+        if c == 9 and cx.chance(6):
+            # a variable in scope used AFTER a nested operator (whose binder may re-use its name under the naming pools):
+            # scope bookkeeping that leaks out of the nested lambda shows here
+            pp = [e for e, t in paths(cx, env) if t == ty]
+            withargs = [e for e in pp if "(" in e and "()" not in e[-2:] or "scaled" in e]
+            if pp:
+                later = _fill(cx, cx.pick(withargs if (withargs and cx.chance(7)) else pp))
+                sp = seq_paths(cx, env)
+                osp = [(e, t) for e, t in sp if t[1][0] == "O"]
+                if sp:
+                    ie, ity = cx.pick(osp if (osp and cx.chance(8)) else sp)
+                    v = cx.fresh(env)
+                    iop = cx.pick(["Select", "Where"])
+                    s_ = _op(cx, iop, _fill(cx, ie), f"lambda {v}: {gen(cx, bind(env, v, ity[1]), B if iop == 'Where' else cx.pick([F, I]), max(depth - 2, 0))}")
+                else:
+                    s_ = _seq(cx, env, any_elem(cx, env), max(depth - 1, 1))
+                first = f"{_recv(s_)}.Count()" if cx.chance(int(cx.cfg.method_form * 10)) else f"Count({s_})"
+                return cx.pick([f"({first} + {later})", f"({first}, {later})[1]", f"({later} if {first} >= 0 else {later})"])
         if c in (7, 8, 9) and cx.cfg.helpers and cx.chance(7):
             if cx.chance(5):
                 return f"hscale({gen(cx, env, ty, depth - 1)})"
@@ -378,7 +416,7 @@ def _seq(cx: Ctx, env, elem, depth):
         if c <= 6:  # Where(S elem, v -> bool)
             src = _seq(cx, env, elem, depth - 1)
             v = cx.fresh(env)
-            return _op(cx, "Where", src, f"lambda {v}: {gen(cx, bind(env, v, elem), B, depth - 1)}")
+            return _op(cx, "Where", src, f"lambda {v}: {filter_body(cx, bind(env, v, elem), depth - 1)}")
         if c <= 8:  # SelectMany(any seq, v -> S elem)
             src, st_ = any_seq(cx, env, depth - 1)
             v = cx.fresh(env)
@@ -426,7 +464,7 @@ def any_seq(cx: Ctx, env, depth):
             t = I
         return _op(cx, "Select", src, f"lambda {v}: {gen(cx, e2, t, depth - 1)}"), t
     if c <= 7:
-        return _op(cx, "Where", src, f"lambda {v}: {gen(cx, e2, B, depth - 1)}"), st_
+        return _op(cx, "Where", src, f"lambda {v}: {filter_body(cx, e2, depth - 1)}"), st_
     inner, it = any_seq(cx, e2, depth - 1)
     return _op(cx, "SelectMany", src, f"lambda {v}: {inner}"), it
 
